@@ -58,6 +58,8 @@ def run_case(case):
         failures.append(dict(signature=sig, clause=clause, case=dict(case, where=where, mode=mode), detail=detail))
 
     def save_ctx(mode):
+        if mode == 'R':
+            return plumpy.LoadSaveContext(loader=pg.RegistryLoader({'answer': 42}))
         return plumpy.LoadSaveContext(loader=pg.PrefixLoader()) if mode == 'C' else None
 
     def snapshot(d, where):
@@ -173,6 +175,8 @@ def run_case(case):
                     lkw = dict(loop=loop)
                     if mode == 'C' and mi == 1:
                         lkw['loader'] = pg.PrefixLoader()          # the loader may also be handed to the load
+                    if mode == 'R':
+                        lkw['loader'] = pg.RegistryLoader({'answer': 42})      # ... and must be when it has no default constructor
                     try:
                         q = rec['copies'][m].unbundle(plumpy.LoadSaveContext(**lkw))
                     except Exception as e:  # noqa
@@ -266,6 +270,8 @@ def gen_cases(ctx):
                     status0=('busy with it' if idx % 3 else None), listener=idx % 4 != 3)
         cases.append(dict(base, kind='entries', modes=['D', 'C']))
         cases.append(dict(base, kind='entries', modes=['G']))
+        if idx % 3 == 1:
+            cases.append(dict(base, kind='entries', modes=['R']))
         try:
             n, nent = pg.profile(prog, inputs=inputs)
         except Exception:
